@@ -257,8 +257,9 @@ class Report:
 
     def finish(self):
         ev = self.evidence()
-        os.makedirs(os.path.join(VERIF, "evidence"), exist_ok=True)
-        path = os.path.join(VERIF, "evidence", "%s.json" % self.prop)
+        evdir = os.environ.get("VERIF_EVIDENCE_DIR") or os.path.join(VERIF, "evidence")
+        os.makedirs(evdir, exist_ok=True)
+        path = os.path.join(evdir, "%s.json" % self.prop)
         tmp = path + ".tmp"
         with open(tmp, "w") as f:
             json.dump(ev, f, indent=1, sort_keys=True, default=str)
@@ -286,7 +287,7 @@ class Report:
 
 
 def replay_dir(prop):
-    d = os.path.join(VERIF, "replays", prop)
+    d = os.path.join(os.environ.get("VERIF_REPLAY_DIR") or os.path.join(VERIF, "replays"), prop)
     os.makedirs(d, exist_ok=True)
     return d
 
